@@ -588,6 +588,8 @@ class OptionsParser:
                 option = ''
             else:
                 option += ch
+        else:
+            idx = len(line)
 
         self._add_option(option)
         option = ''
